@@ -360,6 +360,28 @@ Fixpoint denotes (v w : cv) {struct v} : bool :=
   | _, _ => false
   end.
 
+(* ... and every input object the client wrote, at every depth, holds only keys its input type
+   declares (a request with an undeclared key - whatever it holds, null included - cannot be coerced:
+   accepting it would silently drop what the client wrote) *)
+Definition decl_loop (rec : cty -> cv -> bool) (kvs : list (nat * cv)) :=
+  fix go (fs : list (nat * (cty * option cv))) : bool :=
+    match fs with
+    | [] => true
+    | f :: r => (match lookupc (fst f) kvs with Some x => rec (fst (snd f)) x | None => true end) && go r
+    end.
+
+Fixpoint only_declared (t : cty) (v : cv) {struct t} : bool :=
+  match t with
+  | TScalar _ | TEnum _ => true
+  | TNonNullOf b => only_declared b v
+  | TListOf b => match v with CList l => forallb (only_declared b) l | _ => true end
+  | TInput fields =>
+      match v with
+      | CMap kvs => forallb (fun kv => declared fields (fst kv)) kvs && decl_loop only_declared kvs fields
+      | _ => true
+      end
+  end.
+
 (* C05: the JSON shape of a leaf of declared type t *)
 Definition has_shape (t : cty) (r : cv) : bool :=
   match t, r with
